@@ -17,8 +17,13 @@ THEOREM_NOTE = 'Datacake.Ts.send / Datacake.Ts.recv (Model/Timestamp.lean); theo
 
 def gen_case(rng, n, idx):
     kind = rng.below(10)
+    early = False
     if kind == 0:
         base = rng.range(0, 10_000_000)
+        if rng.chance(1, 2):
+            # the first seconds after the datacake epoch, read from the SYSTEM clock at 1 ms resolution (a clock reset to
+            # 2023-01-01): every reading goes through the conversion and its rounding to the 4 ms grid
+            base = rng.range(0, 2500); early = True
     elif kind == 1:
         base = (2 ** 32 - 1 - rng.range(0, 4200)) * 1000 + rng.below(1000)   # near the 32-bit limit
     else:
@@ -41,11 +46,11 @@ def gen_case(rng, n, idx):
     for _ in range(n):
         m = rng.below(10)
         if m < 3: pass                                   # stalled
-        elif m < 6: wall += rng.choice([1, 3, 4, 8, 1000, 250])
+        elif m < 6: wall += rng.choice([1, 3, 4, 8, 1000, 250]) if not early else rng.choice([1, 1, 2, 3, 5])
         elif m < 8: wall = max(0, wall - rng.choice([4, 8, 1000, 5000, 4_200_000]))
         else: wall += rng.choice([DRIFT_MS, DRIFT_MS + 4, 10_000_000])
         if rng.chance(1, 2):
-            u = rng.below(16)
+            u = rng.below(16) if not early else rng.choice([0, 0, 0, 1, 5])
             if u == 0:      # the SYSTEM clock reading is injected instead (D28): the same instant, expressed since 1970
                 lines.append('send-unix %d' % (EPOCH_MS + wall))
             elif u == 1:    # a system clock which reads a time BEFORE the datacake epoch (2023-01-01): reads as the epoch itself
